@@ -151,8 +151,8 @@ def proof_status(prop, make_log):
 # or its disagreement with the reference the property names)
 DECISIVE = {
     'C01': {'prop-rt-value', 'prop-rt-n', 'prop-rt-fail', 'panic', 'crash', 'corr-encerr', 'corr-sizepanic'},
-    'C02': {'corr-dispatch', 'corr-bytes', 'prop-malformed', 'panic', 'crash', 'corr-encerr'},
-    'C03': {'corr-value', 'corr-n', 'corr-err-vs-ok', 'ref-value', 'ref-n', 'ref-err-vs-ok', 'ref-ok-vs-err', 'panic', 'crash'},
+    'C02': {'corr-desc', 'corr-dispatch', 'corr-bytes', 'prop-malformed', 'panic', 'crash', 'corr-encerr'},
+    'C03': {'corr-desc', 'corr-value', 'corr-n', 'corr-err-vs-ok', 'ref-value', 'ref-n', 'ref-err-vs-ok', 'ref-ok-vs-err', 'panic', 'crash'},
     'C04': {'prop-size', 'prop-short-accepted', 'prop-fit-rejected', 'prop-guard', 'panic', 'crash', 'corr-sizepanic'},
     'C05': {'panic', 'crash', 'corr-ok-vs-err', 'corr-err-vs-ok', 'ref-err-vs-ok', 'ref-ok-vs-err', 'prop-alloc', 'prop-time'},
     'C06': {'prop-memory', 'prop-memory-changed', 'corr-span', 'corr-value', 'prop-input-alias', 'panic', 'crash'},
@@ -160,12 +160,12 @@ DECISIVE = {
             'prop-invalid-enc', 'prop-invalid-dec', 'prop-valid-rejected', 'corr-errfield', 'corr-errclass', 'corr-sizepanic', 'corr-encerr', 'panic', 'crash'},
     'C08': {'corr-sizepanic', 'corr-encerr', 'corr-value', 'corr-n', 'corr-err-vs-ok', 'corr-ok-vs-err', 'corr-bytes', 'corr-size', 'prop-rt-value', 'prop-size', 'prop-deadlock',
             'corr-descmap', 'panic', 'crash', 'race'},
-    'C14': {'prop-nocopy-set', 'prop-nocopy-cap', 'prop-nocopy-view', 'prop-input-alias', 'prop-memory', 'corr-value', 'panic', 'crash'},
+    'C14': {'corr-desc', 'prop-nocopy-set', 'prop-nocopy-cap', 'prop-nocopy-view', 'prop-input-alias', 'prop-memory', 'corr-value', 'panic', 'crash'},
     'C17': {'corr-sizepanic', 'corr-encerr', 'prop-invalid-size', 'prop-invalid-enc', 'prop-invalid-dec', 'prop-valid-rejected', 'prop-legacy', 'corr-value', 'corr-n', 'corr-err-vs-ok', 'corr-ok-vs-err', 'corr-bytes', 'corr-size', 'prop-rt-value', 'prop-size', 'panic', 'crash'},
     'C18': {'prop-allocs', 'panic', 'crash'},
-    'C09': {'ref-err-vs-ok', 'ref-ok-vs-err', 'ref-errfield', 'ref-errclass', 'corr-bitset', 'corr-err-vs-ok', 'corr-ok-vs-err', 'corr-errclass', 'corr-errfield', 'corr-bytes', 'panic', 'crash'},
-    'C10': {'ref-value', 'corr-bytes', 'corr-value', 'corr-size', 'prop-rt-value', 'panic', 'crash'},
-    'C11': {'prop-malformed', 'ref-value', 'ref-err-vs-ok', 'corr-unknown', 'corr-value', 'corr-bytes', 'corr-size', 'prop-size', 'corr-hop', 'panic', 'crash'},
+    'C09': {'corr-desc', 'ref-err-vs-ok', 'ref-ok-vs-err', 'ref-errfield', 'ref-errclass', 'corr-bitset', 'corr-err-vs-ok', 'corr-ok-vs-err', 'corr-errclass', 'corr-errfield', 'corr-bytes', 'panic', 'crash'},
+    'C10': {'corr-desc', 'ref-value', 'corr-bytes', 'corr-value', 'corr-size', 'prop-rt-value', 'panic', 'crash'},
+    'C11': {'corr-desc', 'prop-malformed', 'ref-value', 'ref-err-vs-ok', 'corr-unknown', 'corr-value', 'corr-bytes', 'corr-size', 'prop-size', 'corr-hop', 'panic', 'crash'},
     'C12': {'prop-malformed', 'prop-size', 'corr-resolve', 'corr-resolve-rejected', 'corr-resolve-accepted', 'corr-bytes', 'corr-value', 'prop-rt-value', 'panic', 'crash', 'universe-mismatch'},
     'C13': {'corr-value', 'prop-rt-value', 'prop-rt-fail', 'corr-encerr', 'corr-sizepanic', 'corr-err-vs-ok', 'corr-resolve-accepted', 'prop-invalid-size', 'prop-invalid-enc', 'prop-invalid-dec', 'prop-valid-rejected', 'prop-badarg', 'panic', 'crash'},
     'C15': {'corr-errclass', 'corr-err-vs-ok', 'corr-ok-vs-err', 'panic', 'crash'},
